@@ -54,6 +54,8 @@ def op_for(rng, wi, wo, inp, allcfg=False):
         cfgs = [("skip", mark_tok(wo, m), "-") for m in MARKS[wo][:4]] + [("throw", "null", "-")]
     for pol, mark, out0 in cfgs:
         ops.append(f"utf.transcode {wi} {wo} {pol} {mark} {out0} {units(wi, inp)}")
+        if (wi == 32 or wo == 32) and wi != wo:
+            ops.append(f"utf.transcodew {wi} {wo} {pol} {mark} {out0} {units(wi, inp)}")     # wchar_t on the 32-bit side
     return ops
 
 
